@@ -266,10 +266,10 @@ def _controls(V, wn, syms, o):
     t1, j4 = wn.get_node('T1'), wn.get_node('J4')
     # simple controls
     c = SimTimeCondition(wn, Comparison.eq, 0)
-    c._threshold = num('ct_time', 0, 36000, 5400, 'int')
+    c._threshold = num('ct_time', 0, 200000, 5400, 'int')
     wn.add_control('ctl_time', Control(c, ControlAction(p3, 'status', LinkStatus.Open)))
     c = TimeOfDayCondition(wn, Comparison.eq, 0, repeat=True)
-    c._threshold = 15 * 3600 + 1800     # clock times stay concrete: the parsers inspect the text of the hour field (AM/PM), which a token hides
+    c._threshold = (o.get('clock_thresholds') or (15 * 3600 + 1800, 6 * 3600))[0]     # clock times stay concrete: the parsers inspect the text of the hour field (AM/PM), which a token hides
     wn.add_control('ctl_clock', Control(c, ControlAction(pu3, 'status', LinkStatus.Open)))
     c = ValueCondition(t1, 'level', Comparison.lt, 0.0)
     c._threshold = num('ct_level', 0, 20, 2.5)
@@ -278,13 +278,13 @@ def _controls(V, wn, syms, o):
     c._threshold = num('ct_press', 0, 200, 45.0)
     wn.add_control('ctl_press', Control(c, ControlAction(tcv, 'setting', num('ct_tcvset', 0.1, 100, 12.0))))
     c = SimTimeCondition(wn, Comparison.eq, 0)
-    c._threshold = num('ct_time2', 0, 36000, 7200, 'int')
+    c._threshold = num('ct_time2', 0, 200000, 7200, 'int')
     wn.add_control('ctl_prvset', Control(c, ControlAction(prv, 'setting', num('ct_prvset', 1, 100, 35.0))))
     if o['rules']:
         c1 = ValueCondition(t1, 'level', Comparison.ge, 0.0)
         c1._threshold = num('rt_level', 0, 20, 5.5)
         c2 = SimTimeCondition(wn, Comparison.ge, 0)
-        c2._threshold = num('rt_time', 0, 36000, 3600, 'int')
+        c2._threshold = num('rt_time', 0, 200000, 3600, 'int')
         c3 = ValueCondition(j4, 'pressure', Comparison.lt, 0.0)
         c3._threshold = num('rt_press', 0, 200, 15.0)
         # EPANET rule text has no parentheses: 'A AND B OR C' means A AND (B OR C); Or(And(A, B), C) is not expressible (see o['or_of_and'])
@@ -310,5 +310,5 @@ def _controls(V, wn, syms, o):
             cc._threshold = num('ct_level2', 0, 20, 4.5)
             wn.add_control('ctl_speed', Control(cc, ControlAction(pu1, 'base_speed', num('ct_speed', 0.2, 2, 0.9))))
         c4 = TimeOfDayCondition(wn, Comparison.ge, 0, repeat=True)
-        c4._threshold = 6 * 3600
+        c4._threshold = (o.get('clock_thresholds') or (15 * 3600 + 1800, 6 * 3600))[1]
         wn.add_control('rule2', Rule(c4, [ControlAction(tcv, 'status', LinkStatus.Open)], None, priority=ControlPriority(2), name='rule2'))
